@@ -15,16 +15,17 @@ class S_:
     pass
 
 
-def make_input_plan(T, variant, depth=1):
+def make_input_plan(T, variant, depth=1, prefix="C03"):
     ctx = symval.Ctx()
     strs = leaf_strings(T)
     node = arb.Arb(ctx, strs, key_universe(T, limit=2), child_extra=strs[:4])
     return ctx, node
 
 
-def setup(T, NODE, CTX, variant, depth=1):
+def setup(T, NODE, CTX, variant, depth=1, prefix="C03"):
     S = S_()
     S.T, S.node, S.ctx, S.variant = T, NODE, CTX, variant
+    S.prefix = prefix
     from vf import tinfo
     S.list_like = tinfo.info(T).kind in ("seq", "tuple_var", "tuple_fixed", "namedtuple", "chainmap")
     if variant == "codec":
@@ -46,13 +47,13 @@ def main(S, env):
     st_o, o = call(oracle.ref_decode, S.RT, d)
     if st_r == "ok":
         if st_o != "ok":
-            return fail("C03/accepted-but-reference-rejects", input=d, result=r, ref_exc=o)
+            return fail(S.prefix + "/accepted-but-reference-rejects", input=d, result=r, ref_exc=o)
         if not deep_eq(r, o):
-            return fail("C03/result-differs", input=d, result=r, reference=o)
+            return fail(S.prefix + "/result-differs", input=d, result=r, reference=o)
         if not oracle.conforms(S.RT, r):
-            return fail("C03/not-conforming", input=d, result=r)
+            return fail(S.prefix + "/not-conforming", input=d, result=r)
     elif st_o == "ok":
-        return fail("C03/rejected-but-reference-accepts:%s" % type(r).__name__, input=d, exc=r, reference=o)
+        return fail(S.prefix + "/rejected-but-reference-accepts:%s" % type(r).__name__, input=d, exc=r, reference=o)
     return True
 
 
